@@ -81,6 +81,34 @@ LIMIT_QUERIES = {
 }
 
 
+# Joins in which one side never yields a batch: every probe partition reaches poll_finalize_execute without
+# poll_execute ever being called and parks as a drainer BEFORE the build side completes (released only by
+# the last hash inserter's pending_drainers.wake_all()); and the symmetric case (empty build side).
+SETUP_EMPTY = ["create temp table t2 as select b from generate_series(1, 3000) s(b)", "create temp table e (y int)"]
+EMPTY_KINDS = {"series0": "generate_series(1,0)", "empty_table": "e", "where_false": "(select b from t2 where b < 0)",
+               "join_nomatch": "(select u.b from t2 u join t2 v on u.b = v.b + 100000)"}
+SIDE_SIZES = {"0": "generate_series(1,0)", "small": "generate_series(1,50)", "big": "generate_series(1,30000)"}
+
+
+def join_sql(jt, left, right):
+    if jt in ("left", "right", "inner"):
+        kw = {"left": "left join", "right": "right join", "inner": "join"}[jt]
+        return "select count(*), sum(a.x), count(b.y) from %s a(x) %s %s b(y) on a.x = b.y" % (left, kw, right)
+    if jt == "semi":
+        return "select count(*), sum(a.x) from %s a(x) where a.x in (select y from %s b(y))" % (left, right)
+    return "select count(*), sum(a.x) from %s a(x) where a.x not in (select y from %s b(y))" % (left, right)
+
+
+def empty_side_queries():
+    out = {}
+    for jt in ("left", "right", "inner", "semi", "anti"):
+        for ek, ee in EMPTY_KINDS.items():
+            for sk, se in SIDE_SIZES.items():
+                out["emptyR-%s-%s-%s" % (jt, ek, sk)] = join_sql(jt, se, ee)      # right (probe) side empty
+            out["emptyL-%s-%s" % (jt, ek)] = join_sql(jt, ee, "generate_series(1,100000)")   # left (build) side empty
+    return out
+
+
 def nolimit_sql(sql):
     """the un-limited query whose rows a LIMIT result must be drawn from (None if not of that shape)"""
     import re
@@ -200,6 +228,20 @@ def stage_det(ctx, rng, gbin):
             for j in range(1 if quick or parts == 1 else 6):
                 cases.append(det_case("%s-p%d-%d" % (name, parts, j), name, setup, sql, parts,
                                       sched(rng, None if j or parts > 1 else "fifo"), _limit=(nrows, cls)))
+    # one join side never yields a batch (hash join and nested-loop join)
+    eq = empty_side_queries()
+    pol = ["lifo", "starve_first", "starve_last", "fifo", "random"]
+    for qi, (name, sql) in enumerate(sorted(eq.items())):
+        for nlj in ([False, True] if (not quick or qi % 4 == 0) else [False]):
+            setup = SETUP_EMPTY + (["set enable_hash_joins to false"] if nlj else [])
+            nm = name + ("-nlj" if nlj else "")
+            cases.append(det_case("base-" + nm, nm, setup, sql, 1, {"kind": "fifo", "seed": 1}))
+            combos = [(pp, kk) for pp in (2, 4, 8, 16) for kk in pol]
+            picks = rng.shuffle(combos)[:(3 if quick else 20)]
+            if nm.startswith("emptyR-left-series0-big") and not nlj:
+                picks = [(16, "fifo"), (16, "lifo"), (8, "starve_first"), (4, "starve_last"), (2, "lifo")]
+            for j, (pp, kk) in enumerate(picks):
+                cases.append(det_case("%s-%d" % (nm, j), nm, setup, sql, pp, sched(rng, kk)))
     # systematic enumeration of every schedule prefix for small partition counts
     enum_names = ["hash_join", "hash_join_left_drain", "group_by", "distinct_aggregate", "order_by_limit", "order_by_full",
                   "union_all", "materialized_cte", "large_result", "series_join", "nested_loop_join", "ungrouped_distinct"]
@@ -210,7 +252,7 @@ def stage_det(ctx, rng, gbin):
                                   enumerate={"max_runs": 120 if quick else 3000, "depth": 7 if quick else 10}))
     send = [{k: v for k, v in c.items() if not k.startswith("_")} for c in cases]
     real = common.run_harness(gbin, "det", send, timeout=3000)
-    base, viol, known, nruns, distinct, poll_err, full_rows = {}, [], [], 0, set(), 0, {}
+    base, viol, known, nruns, distinct, poll_err, full_rows, planfail = {}, [], [], 0, set(), 0, {}, set()
     sample = None
     for c, r in zip(cases, real):
         name = c["_name"]
@@ -270,9 +312,14 @@ def stage_det(ctx, rng, gbin):
             continue
         if c["id"].startswith("base-"):
             base[name] = out
+            if out[0] == "err" and (res or {}).get("phase") == "plan" and name.startswith("empty"):
+                planfail.add(name)      # a planner limitation/defect of another property: shape not executable
+                continue
             if out[0] != "rows":
                 viol.append(("sequential (1 partition, fifo) run failed", dict(replay, outcome=out)))
             sample = sample or {"sql": c["stmts"][-1], "partitions": 1, "steps": r.get("steps"), "rows": out[1] if out[0] == "rows" else None}
+            continue
+        if name in planfail:
             continue
         if out[0] in ("hang", "panic", "missing"):
             viol.append(("query %s under a schedule" % out[0], dict(replay, outcome=out, steps=r.get("steps"))))
@@ -293,7 +340,7 @@ def stage_det(ctx, rng, gbin):
             viol.append(("result differs from the sequential run", dict(replay, outcome=out[:2], sequential=base.get(name, ("?",))[:2])))
         elif r.get("unfinished"):
             viol.append(("tasks left unfinished after the stream ended normally", dict(replay, unfinished=r["unfinished"])))
-    return {"cases": len(cases), "runs": nruns, "distinct": len(distinct), "violations": viol, "known": known,
+    return {"cases": len(cases), "shapes_not_plannable": sorted(planfail), "runs": nruns, "distinct": len(distinct), "violations": viol, "known": known,
             "polls_after_error": poll_err, "sample": sample}
 
 
@@ -415,7 +462,7 @@ def run(ctx):
         "samples": [k1["sample"], k2["sample"], k3["sample"]],
         "stack_scripts": k1["scripts"], "stack_steps_compared": k1["steps"], "det_cases": k2["cases"], "det_runs": k2["runs"],
         "threaded_task_traces": k3["traces"], "threaded_task_events": k3["events"],
-        "polls_after_error_observed": k2["polls_after_error"], "exhaustive": False,
+        "polls_after_error_observed": k2["polls_after_error"], "shapes_not_plannable": k2["shapes_not_plannable"], "exhaustive": False,
     }
     out["assumptions"] = ["atomic steps of the barrier models are the operator mutex critical sections; the lock-free fetch_sub of the hash-join build is one step",
                           "deterministic runs use one OS thread; multi-threaded runs are sampled (1-8 threads), not enumerated",
